@@ -981,6 +981,13 @@ pub struct ReplayFile {
     /// the case failed with a TRACE tracing subscriber installed (the replay installs one too)
     #[serde(default)]
     pub traced: bool,
+    /// build profile of the harness binary in which the case failed ("checked" or "plain")
+    #[serde(default = "default_profile")]
+    pub profile: String,
+}
+
+fn default_profile() -> String {
+    "checked".into()
 }
 
 pub fn write_replay(property: &str, v: &Violation) -> PathBuf {
@@ -993,6 +1000,7 @@ pub fn write_replay(property: &str, v: &Violation) -> PathBuf {
         message: v.fail.msg.clone(),
         case: v.case.clone(),
         traced: v.traced,
+        profile: if cfg!(debug_assertions) { "checked" } else { "plain" }.into(),
     };
     let text = serde_json::to_string_pretty(&body).unwrap();
     let d = digest(&(property, &v.check, v.case.to_string()));
